@@ -49,6 +49,9 @@ pub mod extras {
         extern "C" fn a_c(&self, v: u64) -> u64;
         fn a_default_kept(&self, v: u64) -> u64 { v + 1000 }
         fn a_default_overridden(&self, v: u64) -> u64 { v + 2000 }
+        // default bodies behind method-level where clauses, overridden by the implementor
+        fn a_sized_overridden(&self, v: u64) -> u64 where Self: Sized { v + 3000 }
+        fn a_sized_mut(&mut self, v: u64) -> u64 where Self: Sized { v + 4000 }
         #[skip_func]
         fn a_skipped(&self) -> u64 { 99 }
     }
@@ -57,6 +60,8 @@ pub mod extras {
         unsafe fn a_unsafe(&self, p: *const u64) -> u64 { *p + self.0 }
         extern "C" fn a_c(&self, v: u64) -> u64 { v * 2 + self.0 }
         fn a_default_overridden(&self, v: u64) -> u64 { v + 7 + self.0 }
+        fn a_sized_overridden(&self, v: u64) -> u64 { v + 11 + self.0 }
+        fn a_sized_mut(&mut self, v: u64) -> u64 { self.0 += v; self.0 }
         fn a_skipped(&self) -> u64 { 5 }
     }
 
@@ -129,6 +134,10 @@ pub mod extras {
             same(rep, "extern C fn", format!("{}", d.a_c(9)), format!("{}", obj.a_c(9)));
             same(rep, "default kept", format!("{}", d.a_default_kept(1)), format!("{}", obj.a_default_kept(1)));
             same(rep, "default overridden", format!("{}", d.a_default_overridden(1)), format!("{}", obj.a_default_overridden(1)));
+            same(rep, "default overridden (where Self: Sized)", format!("{}", d.a_sized_overridden(1)), format!("{}", obj.a_sized_overridden(1)));
+            let mut d2 = At(3);
+            let mut obj2 = trait_obj!(At(3) as Attrs);
+            same(rep, "default overridden (&mut self, where Self: Sized)", format!("{} {}", d2.a_sized_mut(5), d2.a_sized_mut(6)), format!("{} {}", obj2.a_sized_mut(5), obj2.a_sized_mut(6)));
         }
         // wrapped owned child with its own state; the parent stays usable
         {
